@@ -1,0 +1,14 @@
+//go:build verif
+
+package ugo
+
+// VerifSyncHook, when set, is called at every named synchronisation point of
+// the abort/cancellation protocol (see verifSync in verifsync.go). Build tag
+// "verif" only.
+var VerifSyncHook func(point string, vm *VM)
+
+func verifSync(point string, vm *VM) {
+	if h := VerifSyncHook; h != nil {
+		h(point, vm)
+	}
+}
